@@ -1,668 +1,12 @@
-import KeepVerif.Model.C14
+import KeepVerif.Proofs.C14Base
+import KeepVerif.Proofs.C14Term
 /-!
 # C14 — Block-synchronized state machine runs every phase in its block window
 
-Theorems over `Model/C14.lean` for every event list (block timings, message deliveries,
-`Initiate` durations) and every chain of `(delay, active)` states, and over the GJKR /
-result-publication chains extracted from the source (`Gen/C14.lean`, regenerated on every run).
+The property theorems live in `Proofs/C14Base.lean` (nominal schedule invariant, end block,
+lockstep, message conservation, `receive_only_current`, the chained `ExecuteDKG` machines) and
+`Proofs/C14Term.lean` (termination of the final drain, unconditional block-window clause of
+the monitor); this file collects them and states the monitor tie.
 -/
 namespace KeepVerif.C14
-
-/-! ## T1 tie: the real chains -/
-
-/-- The sum over the real GJKR state chain (walked through `Next()`) is `gjkr.ProtocolBlocks()`. -/
-theorem gjkr_total_eq_ProtocolBlocks : total gjkrChain = Gen.C14.gjkrProtocolBlocks := by decide
-
-/-- The sum over the real result-publication chain is `result.PrePublicationBlocks()`. -/
-theorem result_total_eq_PrePublicationBlocks :
-    total resultChain = Gen.C14.resultPrePublicationBlocks := by decide
-
-/-- every state of both chains has a delay and an active length (lists are aligned) -/
-theorem chains_aligned :
-    Gen.C14.gjkrDelays.length = Gen.C14.gjkrActives.length ∧
-    Gen.C14.gjkrStates.length = Gen.C14.gjkrDelays.length ∧
-    Gen.C14.resultDelays.length = Gen.C14.resultActives.length ∧
-    Gen.C14.resultStates.length = Gen.C14.resultDelays.length ∧
-    Gen.C14.silentStateDelayBlocks = 0 ∧ Gen.C14.silentStateActiveBlocks = 0 := by decide
-
-/-! ## nominal schedule arithmetic -/
-
-theorem endOf_eq (e : Nat) (l : List Spec) : endOf e l = e + total l := by
-  unfold total
-  induction l generalizing e with
-  | nil => simp [endOf]
-  | cons s r ih => simp only [endOf]; rw [ih, ih (0 + s.delay + s.active)]; omega
-
-theorem endOf_append (e : Nat) (a b : List Spec) : endOf e (a ++ b) = endOf (endOf e a) b := by
-  induction a generalizing e with
-  | nil => rfl
-  | cons s r ih => simp [endOf, ih]
-
-theorem sched_append (e : Nat) (a b : List Spec) :
-    sched e (a ++ b) = sched e a ++ sched (endOf e a) b := by
-  induction a generalizing e with
-  | nil => rfl
-  | cons s r ih => simp [sched, endOf, ih]
-
-/-! ## the invariant: the machine follows the nominal schedule -/
-
-/-- block-counter calls made so far when the current state (after the states `pre`) is in
-    `phase`; `none` for an impossible combination. -/
-def callsAt (start : Nat) (pre : List Spec) (cur : Spec) : Phase → Option (List Call)
-  | .waitStart s => if s = start ∧ pre = [] then some [.wait start] else none
-  | .waitDelay t | .initiating t =>
-    if t = endOf start pre + cur.delay then some (.wait start :: sched start pre ++ [.wait t]) else none
-  | .loop w =>
-    if w = endOf start pre + cur.delay + cur.active then some (.wait start :: sched start (pre ++ [cur])) else none
-  | .finished => none
-
-def Inv (start : Nat) (all : List Spec) (c : Cfg) : Prop :=
-  ∃ pre, all = pre ++ c.cur :: c.rest ∧ pre.length = c.k ∧
-    if c.phase = .finished then
-      (∃ l, Call.wait start :: sched start all = c.calls ++ l) ∧
-      (∀ k e, c.res = .final k e →
-        e = endOf start all ∧ k + 1 = all.length ∧ c.calls = .wait start :: sched start all)
-    else c.res = .running ∧ callsAt start pre c.cur c.phase = some c.calls
-
-def OutInv (start : Nat) (all : List Spec) : Out → Prop
-  | .quiet c => Inv start all c
-  | .fired c w => Inv start all c ∧ c.phase = .loop w
-
-theorem loopStage_inv {start all} (c : Cfg) (w : Nat) (h : Inv start all { c with phase := .loop w }) :
-    OutInv start all (loopStage c w) := by
-  unfold loopStage
-  simp only
-  split
-  · exact ⟨by simpa [Inv, callsAt] using h, rfl⟩
-  · simpa [OutInv, Inv, callsAt] using h
-
-theorem afterInit_inv {start all} (c : Cfg) (t : Nat) (pre : List Spec)
-    (hall : all = pre ++ c.cur :: c.rest) (hk : pre.length = c.k) (hres : c.res = .running)
-    (ht : t = endOf start pre + c.cur.delay)
-    (hcalls : c.calls = .wait start :: sched start pre ++ [.wait t]) :
-    OutInv start all (afterInit c t) := by
-  unfold afterInit
-  split
-  · refine ⟨pre, hall, hk, ?_⟩
-    simp only [if_true]
-    refine ⟨⟨.arm (t + c.cur.active) :: sched (t + c.cur.active) c.rest, ?_⟩, by simp⟩
-    rw [hall, sched_append, hcalls]
-    simp [sched, ht]
-  · apply loopStage_inv
-    refine ⟨pre, hall, hk, ?_⟩
-    simp [callsAt, hres, ht, hcalls, sched_append, sched, endOf]
-
-theorem initStage_inv {start all} (c : Cfg) (t : Nat) (pre : List Spec)
-    (hall : all = pre ++ c.cur :: c.rest) (hk : pre.length = c.k) (hres : c.res = .running)
-    (ht : t = endOf start pre + c.cur.delay)
-    (hcalls : c.calls = .wait start :: sched start pre ++ [.wait t]) :
-    OutInv start all (initStage c t) := by
-  unfold initStage
-  simp only
-  split
-  · exact ⟨pre, hall, hk, by simp [callsAt, hres, ht, hcalls]⟩
-  · exact afterInit_inv _ t pre hall hk hres ht hcalls
-
-theorem delayStage_inv {start all} (c : Cfg) (e : Nat) (pre : List Spec)
-    (hall : all = pre ++ c.cur :: c.rest) (hk : pre.length = c.k) (hres : c.res = .running)
-    (he : e = endOf start pre)
-    (hcalls : c.calls = .wait start :: sched start pre) :
-    OutInv start all (delayStage c e) := by
-  unfold delayStage
-  simp only
-  split
-  · exact initStage_inv _ _ pre hall hk hres (by simp [he]) (by simp [hcalls])
-  · exact ⟨pre, hall, hk, by simp [callsAt, hres, he, hcalls]⟩
-
-def Out.cfg : Out → Cfg
-  | .quiet c => c
-  | .fired c _ => c
-
-theorem delayStage_rest (c : Cfg) (e : Nat) : (delayStage c e).cfg.rest = c.rest := by
-  unfold delayStage initStage afterInit loopStage
-  simp only
-  repeat' split
-  all_goals rfl
-
-theorem initStage_rest (c : Cfg) (e : Nat) : (initStage c e).cfg.rest = c.rest := by
-  unfold initStage afterInit loopStage
-  simp only
-  repeat' split
-  all_goals rfl
-
-theorem afterInit_rest (c : Cfg) (e : Nat) : (afterInit c e).cfg.rest = c.rest := by
-  unfold afterInit loopStage
-  simp only
-  repeat' split
-  all_goals rfl
-
-theorem loopStage_rest (c : Cfg) (e : Nat) : (loopStage c e).cfg.rest = c.rest := by
-  unfold loopStage
-  simp only
-  repeat' split
-  all_goals rfl
-
-theorem chain_inv {start all} (rest : List Spec) (o : Out) (h : OutInv start all o)
-    (hrest : o.cfg.rest = rest) :
-    Inv start all (chain rest o) := by
-  induction rest generalizing o with
-  | nil =>
-    cases o with
-    | quiet c => simpa [chain, OutInv] using h
-    | fired c w =>
-      obtain ⟨⟨pre, hall, hk, hinv⟩, hph⟩ := h
-      simp only [Out.cfg] at hrest
-      simp only [hph, reduceCtorEq, if_false, callsAt] at hinv
-      split at hinv
-      · rename_i hw
-        obtain ⟨hres, hcalls⟩ := hinv
-        simp only [Option.some.injEq] at hcalls
-        simp only [chain]
-        split
-        · refine ⟨pre, hall, hk, ?_⟩
-          simp only [if_true]
-          exact ⟨⟨[], by simp [hall, hrest, ← hcalls]⟩, by simp⟩
-        · refine ⟨pre, hall, hk, ?_⟩
-          simp only [if_true]
-          refine ⟨⟨[], by simp [hall, hrest, ← hcalls]⟩, ?_⟩
-          intro k e hke
-          simp only [Res.final.injEq] at hke
-          refine ⟨?_, ?_, ?_⟩
-          · rw [← hke.2, hw, hall, hrest, endOf_append]; simp [endOf]
-          · rw [← hke.1, hall, hrest]; simp [hk]
-          · simp [hall, hrest, ← hcalls]
-      · exact absurd hinv.2 (by simp)
-  | cons s rest' ih =>
-    cases o with
-    | quiet c => simpa [chain, OutInv] using h
-    | fired c w =>
-      obtain ⟨⟨pre, hall, hk, hinv⟩, hph⟩ := h
-      simp only [Out.cfg] at hrest
-      simp only [hph, reduceCtorEq, if_false, callsAt] at hinv
-      split at hinv
-      · rename_i hw
-        obtain ⟨hres, hcalls⟩ := hinv
-        simp only [Option.some.injEq] at hcalls
-        simp only [chain]
-        split
-        · refine ⟨pre, hall, hk, ?_⟩
-          simp only [if_true]
-          refine ⟨⟨sched w (s :: rest'), ?_⟩, by simp⟩
-          rw [hall, hrest, ← hcalls]
-          have : pre ++ c.cur :: s :: rest' = (pre ++ [c.cur]) ++ (s :: rest') := by simp
-          rw [this, sched_append, endOf_append]
-          simp [endOf, hw]
-        · apply ih
-          · apply delayStage_inv _ w (pre ++ [c.cur])
-            · simp [hall, hrest]
-            · simp [hk]
-            · exact hres
-            · rw [hw, endOf_append]; simp [endOf]
-            · simp [← hcalls]
-          · rw [delayStage_rest]
-      · exact absurd hinv.2 (by simp)
-
-theorem settle_inv {start all} (c : Cfg) (h : Inv start all c) : Inv start all (settle c) := by
-  obtain ⟨pre, hall, hk, hinv⟩ := h
-  unfold settle
-  split
-  · rename_i s hph
-    split
-    · simp only [hph, reduceCtorEq, if_false, callsAt] at hinv
-      obtain ⟨hres, hc⟩ := hinv
-      split at hc
-      · rename_i hs
-        simp only [Option.some.injEq] at hc
-        apply chain_inv _ _ _ (delayStage_rest _ _)
-        exact delayStage_inv c s pre hall hk hres (by simp [hs.1, hs.2, endOf]) (by simp [← hc, hs.1, hs.2, sched])
-      · exact absurd hc (by simp)
-    · exact ⟨pre, hall, hk, hinv⟩
-  · rename_i t hph
-    split
-    · simp only [hph, reduceCtorEq, if_false, callsAt] at hinv
-      obtain ⟨hres, hc⟩ := hinv
-      split at hc
-      · rename_i ht
-        simp only [Option.some.injEq] at hc
-        apply chain_inv _ _ _ (initStage_rest _ _)
-        exact initStage_inv c t pre hall hk hres ht hc.symm
-      · exact absurd hc (by simp)
-    · exact ⟨pre, hall, hk, hinv⟩
-  · exact ⟨pre, hall, hk, hinv⟩
-  · rename_i w hph
-    apply chain_inv _ _ _ (loopStage_rest _ _)
-    apply loopStage_inv
-    refine ⟨pre, hall, hk, ?_⟩
-    simpa [hph] using hinv
-  · exact ⟨pre, hall, hk, hinv⟩
-
-/-- fields the invariant does not mention may change freely -/
-theorem inv_congr {start all} (c c' : Cfg) (h : Inv start all c)
-    (h1 : c'.phase = c.phase) (h2 : c'.cur = c.cur) (h3 : c'.rest = c.rest) (h4 : c'.k = c.k)
-    (h5 : c'.calls = c.calls) (h6 : c'.res = c.res) : Inv start all c' := by
-  unfold Inv at *
-  rw [h1, h2, h3, h4, h5, h6]
-  exact h
-
-theorem step_inv {start all} (c : Cfg) (e : Ev) (h : Inv start all c) : Inv start all (step c e) := by
-  cases e with
-  | block hb => exact settle_inv _ (inv_congr c _ h rfl rfl rfl rfl rfl rfl)
-  | msg id =>
-    simp only [step]
-    split
-    · exact inv_congr c _ h rfl rfl rfl rfl rfl rfl
-    · exact settle_inv _ (inv_congr c _ h rfl rfl rfl rfl rfl rfl)
-  | release =>
-    simp only [step]
-    split
-    · rename_i t hph
-      obtain ⟨pre, hall, hk, hinv⟩ := h
-      simp only [hph, reduceCtorEq, if_false, callsAt] at hinv
-      obtain ⟨hres, hc⟩ := hinv
-      split at hc
-      · rename_i ht
-        simp only [Option.some.injEq] at hc
-        apply chain_inv _ _ _ (afterInit_rest _ _)
-        exact afterInit_inv c t pre hall hk hres ht hc.symm
-      · exact absurd hc (by simp)
-    · exact h
-
-theorem init_inv (h0 start : Nat) (s : Spec) (rest : List Spec) :
-    Inv start (s :: rest) (init h0 start s rest) := by
-  apply settle_inv
-  exact ⟨[], rfl, rfl, by simp [callsAt]⟩
-
-theorem exec_inv (h0 start : Nat) (s : Spec) (rest : List Spec) (evs : List Ev) :
-    Inv start (s :: rest) (exec h0 start s rest evs) := by
-  unfold exec
-  generalize hc : init h0 start s rest = c
-  have h : Inv start (s :: rest) c := hc ▸ init_inv h0 start s rest
-  clear hc
-  induction evs generalizing c with
-  | nil => exact h
-  | cons e r ih => exact ih _ (step_inv c e h)
-
-theorem drain_inv {start all} (n : Nat) (c : Cfg) (h : Inv start all c) : Inv start all (drain n c) := by
-  induction n generalizing c with
-  | zero => exact h
-  | succ n ih =>
-    apply ih
-    unfold drainStep
-    split <;> first | exact h | exact step_inv _ _ h
-
-theorem run_inv (h0 start : Nat) (s : Spec) (rest : List Spec) (evs : List Ev) :
-    Inv start (s :: rest) (run h0 start s rest evs) :=
-  drain_inv _ _ (exec_inv h0 start s rest evs)
-
-/-! ## the property -/
-
-theorem inv_calls_prefix {start all} (c : Cfg) (h : Inv start all c) :
-    ∃ l, Call.wait start :: sched start all = c.calls ++ l := by
-  obtain ⟨pre, hall, hk, hinv⟩ := h
-  split at hinv
-  · exact hinv.1
-  · obtain ⟨_, hc⟩ := hinv
-    generalize c.phase = ph at hc
-    generalize c.calls = calls at hc
-    generalize hcur : c.cur = cur at hc hall
-    generalize hrest : c.rest = rst at hall
-    rw [hall]
-    cases ph with
-    | waitStart x =>
-      simp only [callsAt] at hc
-      split at hc
-      · simp only [Option.some.injEq] at hc; exact ⟨sched start (pre ++ cur :: rst), by simp [← hc]⟩
-      · exact absurd hc (by simp)
-    | waitDelay t =>
-      simp only [callsAt] at hc
-      split at hc
-      · rename_i ht
-        simp only [Option.some.injEq] at hc
-        refine ⟨.arm (t + cur.active) :: sched (t + cur.active) rst, ?_⟩
-        rw [sched_append, ← hc]; simp [sched, ht]
-      · exact absurd hc (by simp)
-    | initiating t =>
-      simp only [callsAt] at hc
-      split at hc
-      · rename_i ht
-        simp only [Option.some.injEq] at hc
-        refine ⟨.arm (t + cur.active) :: sched (t + cur.active) rst, ?_⟩
-        rw [sched_append, ← hc]; simp [sched, ht]
-      · exact absurd hc (by simp)
-    | loop w =>
-      simp only [callsAt] at hc
-      split at hc
-      · rename_i hw
-        simp only [Option.some.injEq] at hc
-        refine ⟨sched w rst, ?_⟩
-        have : pre ++ cur :: rst = (pre ++ [cur]) ++ rst := by simp
-        rw [this, sched_append, endOf_append, ← hc]; simp [endOf, hw]
-      · exact absurd hc (by simp)
-    | finished => simp [callsAt] at hc
-
-/-- **calls_follow_nominal_schedule**: for every block/message/initiation timing, at every
-    moment of the execution (after any event list) the block-counter calls made so far are a
-    prefix of the nominal schedule
-    `Wait start, Wait (e₀+d₀), Arm (e₀+d₀+a₀), Wait (e₁+d₁), …` with `e₀ = start`,
-    `e_{k+1} = e_k + d_k + a_k`: state `k` is entered at `e_k = start + Σ_{j<k}(d_j+a_j)`, its
-    `Initiate` is gated by `e_k + d_k`, its end by `e_k + d_k + a_k` — never by the actual,
-    possibly late, block heights. -/
-theorem calls_follow_nominal_schedule (h0 start : Nat) (s : Spec) (rest : List Spec) (evs : List Ev) :
-    ∃ l, Call.wait start :: sched start (s :: rest) = (exec h0 start s rest evs).calls ++ l :=
-  inv_calls_prefix _ (exec_inv h0 start s rest evs)
-
-/-- **end_block_eq**: whenever `Execute` returns normally it returns the last state of the chain
-    and exactly `start + Σ (delay + active)`, after having made every nominal call — for every
-    timing of blocks, messages and `Initiate` durations. -/
-theorem end_block_eq (h0 start : Nat) (s : Spec) (rest : List Spec) (evs : List Ev) (k e : Nat)
-    (h : (run h0 start s rest evs).res = .final k e) :
-    e = start + total (s :: rest) ∧ k + 1 = (s :: rest).length ∧
-    (run h0 start s rest evs).calls = .wait start :: sched start (s :: rest) := by
-  obtain ⟨pre, hall, hk, hinv⟩ := run_inv h0 start s rest evs
-  split at hinv
-  · have := hinv.2 k e h
-    rw [endOf_eq] at this
-    exact this
-  · rw [hinv.1] at h; exact absurd h (by simp)
-
-/-- **members_in_lockstep**: two members started at the same block on the same chain end at the
-    same block and issue the same block-counter calls, whatever blocks/messages each of them saw
-    and however long their `Initiate` calls took. -/
-theorem members_in_lockstep (start : Nat) (s : Spec) (rest : List Spec)
-    (h0 h0' : Nat) (evs evs' : List Ev) (k e k' e' : Nat)
-    (h : (run h0 start s rest evs).res = .final k e)
-    (h' : (run h0' start s rest evs').res = .final k' e') :
-    e = e' ∧ k = k' ∧ (run h0 start s rest evs).calls = (run h0' start s rest evs').calls := by
-  obtain ⟨a, b, c⟩ := end_block_eq h0 start s rest evs k e h
-  obtain ⟨a', b', c'⟩ := end_block_eq h0' start s rest evs' k' e' h'
-  exact ⟨by omega, by omega, by rw [c, c']⟩
-
-/-- GJKR members started at block `start` finish at `start + ProtocolBlocks()`. -/
-theorem gjkr_end_block (h0 start : Nat) (evs : List Ev) (s : Spec) (rest : List Spec)
-    (hc : gjkrChain = s :: rest) (k e : Nat) (h : (run h0 start s rest evs).res = .final k e) :
-    e = start + Gen.C14.gjkrProtocolBlocks := by
-  rw [← gjkr_total_eq_ProtocolBlocks, hc]
-  exact (end_block_eq h0 start s rest evs k e h).1
-
-theorem isPrefix_of_append [DecidableEq α] (a l : List α) : isPrefix a (a ++ l) = true := by
-  induction a with
-  | nil => rfl
-  | cons x r ih => simp [isPrefix, ih]
-
-theorem sched_length (e : Nat) (l : List Spec) : (sched e l).length = 2 * l.length := by
-  induction l generalizing e with
-  | nil => rfl
-  | cons s r ih => simp [sched, ih]; omega
-
-/-- **holdsSched_model_partial** (monitor tie, block-window part): the schedule part of the
-    monitor accepts every run of the model, for all inputs.  Gap: the remaining conjuncts of
-    `holds` (entry/initiate heights of each record, context flags, message conservation) are
-    not proved to accept the model; they are compared with the model on every case instead. -/
-theorem holdsSched_model_partial (h0 start : Nat) (s : Spec) (rest : List Spec) (evs : List Ev)
-    (hfin : (run h0 start s rest evs).res ≠ .running) :
-    holdsSched start (s :: rest) (run h0 start s rest evs).calls (run h0 start s rest evs).res = true := by
-  have hinv := run_inv h0 start s rest evs
-  obtain ⟨l, hl⟩ := inv_calls_prefix _ hinv
-  unfold holdsSched
-  rw [hl, isPrefix_of_append]
-  cases hres : (run h0 start s rest evs).res with
-  | running => exact absurd hres hfin
-  | final k e =>
-    obtain ⟨a, b, c⟩ := end_block_eq h0 start s rest evs k e hres
-    simp [a, b, c, sched_length]; omega
-  | errInitiate => simp
-  | errNext => simp
-
-/-! ## messages: who is handed what -/
-
-/-- messages handed to `Receive`, in state order -/
-def handed (c : Cfg) : List Nat := ((c.done ++ [c.crec]).map (·.msgs)).flatten
-
-/-- what the stage functions keep: ended records, dropped, and handed ++ buffered -/
-def Keeps (c c' : Cfg) : Prop :=
-  c'.done = c.done ∧ c'.dropped = c.dropped ∧ handed c' ++ c'.buf = handed c ++ c.buf ∧
-  c'.k = c.k ∧ c'.height = c.height
-
-theorem loopStage_keeps (c : Cfg) (w : Nat) : Keeps c (loopStage c w).cfg := by
-  unfold loopStage Keeps handed
-  simp only
-  split <;> simp [Out.cfg]
-
-theorem afterInit_keeps (c : Cfg) (t : Nat) : Keeps c (afterInit c t).cfg := by
-  unfold afterInit
-  split
-  · simp [Keeps, Out.cfg, handed]
-  · exact loopStage_keeps _ _
-
-theorem initStage_keeps (c : Cfg) (t : Nat) : Keeps c (initStage c t).cfg := by
-  unfold initStage
-  simp only
-  split
-  · simp [Keeps, Out.cfg, handed]
-  · have := afterInit_keeps { c with crec := { c.crec with initH := some c.height } } t
-    simpa [Keeps, handed] using this
-
-theorem delayStage_keeps (c : Cfg) (e : Nat) : Keeps c (delayStage c e).cfg := by
-  unfold delayStage
-  simp only
-  split
-  · have := initStage_keeps { c with calls := c.calls ++ [.wait (e + c.cur.delay)],
-                                      crec := { c.crec with thr := some (e + c.cur.delay) } } (e + c.cur.delay)
-    simpa [Keeps, handed] using this
-  · simp [Keeps, Out.cfg, handed]
-
-/-- what a whole settle keeps: ended records only grow, dropped and handed ++ buffered stay -/
-def Grows (c c' : Cfg) : Prop :=
-  c.done <+: c'.done ∧ c'.dropped = c.dropped ∧ handed c' ++ c'.buf = handed c ++ c.buf
-
-theorem Keeps.grows {c c' : Cfg} (h : Keeps c c') : Grows c c' :=
-  ⟨by rw [h.1]; exact List.prefix_refl _, h.2.1, h.2.2.1⟩
-
-theorem Grows.trans {a b c : Cfg} (h1 : Grows a b) (h2 : Grows b c) : Grows a c :=
-  ⟨h1.1.trans h2.1, by rw [h2.2.1, h1.2.1], by rw [h2.2.2, h1.2.2]⟩
-
-theorem chain_grows (rest : List Spec) (o : Out) : Grows o.cfg (chain rest o) := by
-  induction rest generalizing o with
-  | nil =>
-    cases o with
-    | quiet c => simp [chain, Out.cfg, Grows]
-    | fired c w => simp only [chain, Out.cfg]; split <;> simp [Grows, handed]
-  | cons s rest' ih =>
-    cases o with
-    | quiet c => simp [chain, Out.cfg, Grows]
-    | fired c w =>
-      simp only [chain, Out.cfg]
-      split
-      · simp [Grows, handed]
-      · refine Grows.trans ?_ (ih _)
-        refine Grows.trans ?_ (delayStage_keeps _ _).grows
-        simp [Grows, handed]
-
-theorem settle_grows (c : Cfg) : Grows c (settle c) := by
-  unfold settle
-  split
-  · split
-    · exact (delayStage_keeps c _).grows.trans (chain_grows _ _)
-    · simp [Grows]
-  · split
-    · exact (initStage_keeps c _).grows.trans (chain_grows _ _)
-    · simp [Grows]
-  · simp [Grows]
-  · exact (loopStage_keeps c _).grows.trans (chain_grows _ _)
-  · simp [Grows]
-
-
-theorem step_done_prefix (c : Cfg) (e : Ev) : c.done <+: (step c e).done := by
-  cases e with
-  | block h => exact (settle_grows { c with height := max c.height h }).1
-  | msg id =>
-    simp only [step]
-    split
-    · exact List.prefix_refl _
-    · exact (settle_grows { c with buf := c.buf ++ [id] }).1
-  | release =>
-    simp only [step]
-    split
-    · exact ((afterInit_keeps c _).grows.trans (chain_grows _ _)).1
-    · exact List.prefix_refl _
-
-/-- **receive_only_current**: `Receive` is invoked on a state only while it is the current one.
-    Once a state has ended (its record has moved to `done`), no later event — block, message or
-    `Initiate` return — hands it another message or changes what it was handed: the records of
-    ended states after any event list are a prefix of those after any continuation. (Messages
-    are appended to the current record only, in `loopStage`, i.e. after its `Initiate` returned
-    and before its end-block waiter was taken.) -/
-theorem receive_only_current (h0 start : Nat) (s : Spec) (rest : List Spec) (evs more : List Ev) :
-    (exec h0 start s rest evs).done <+: (exec h0 start s rest (evs ++ more)).done := by
-  unfold exec
-  rw [List.foldl_append]
-  generalize List.foldl step (init h0 start s rest) evs = c
-  induction more generalizing c with
-  | nil => exact List.prefix_refl _
-  | cons e r ih => exact (step_done_prefix c e).trans (ih _)
-
-/-- a message delivered while state k sits in its `select` loop before its end block is handed
-    to state k, immediately. -/
-theorem msg_to_current (c : Cfg) (w id : Nat) (hp : c.phase = .loop w) (hw : c.height < w)
-    (hb : c.buf = []) :
-    (step c (.msg id)).crec.msgs = c.crec.msgs ++ [id] ∧ (step c (.msg id)).k = c.k ∧
-    (step c (.msg id)).done = c.done ∧ (step c (.msg id)).buf = [] := by
-  have hnw : ¬ (c.height ≥ w) := by omega
-  simp [step, hp, settle, loopStage, hnw, chain, hb]
-
-theorem delivered_append (a b : List Ev) : delivered (a ++ b) = delivered a ++ delivered b := by
-  induction a with
-  | nil => rfl
-  | cons x r ih => cases x <;> simp [delivered, ih]
-
-/-- receive-path invariant of the sync machine -/
-def Conserved (c : Cfg) (d : List Nat) : Prop :=
-  d = handed c ++ c.buf ++ c.dropped ∧ (c.phase ≠ .finished → c.dropped = [])
-
-theorem grows_conserved {c c' : Cfg} {d : List Nat} (g : Grows c c')
-    (h : d = handed c ++ c.buf ++ c.dropped) (hd : c.dropped = []) :
-    Conserved c' d := by
-  refine ⟨?_, fun _ => by rw [g.2.1, hd]⟩
-  rw [g.2.2, g.2.1]; exact h
-
-theorem step_conserved (c : Cfg) (e : Ev) (d : List Nat) (h : Conserved c d) :
-    Conserved (step c e) (d ++ delivered [e]) := by
-  obtain ⟨hd, hf⟩ := h
-  by_cases hfin : c.phase = .finished
-  · cases e with
-    | block hb => simpa [step, settle, hfin, delivered, Conserved, handed] using hd
-    | msg id => simp [step, hfin, delivered, Conserved, handed, hd]
-    | release => simpa [step, hfin, delivered, Conserved, handed] using hd
-  · have hdr := hf hfin
-    cases e with
-    | block hb =>
-      simp only [delivered, List.append_nil]
-      exact grows_conserved (settle_grows { c with height := max c.height hb })
-        (by simpa [handed] using hd) hdr
-    | msg id =>
-      simp only [step, delivered]
-      exact grows_conserved (settle_grows { c with buf := c.buf ++ [id] })
-          (by simp [handed, hd, hdr] ) hdr
-    | release =>
-      simp only [step, delivered, List.append_nil]
-      split
-      · exact grows_conserved ((afterInit_keeps c _).grows.trans (chain_grows _ _)) hd hdr
-      · exact ⟨hd, hf⟩
-
-theorem init_conserved (h0 start : Nat) (s : Spec) (rest : List Spec) :
-    Conserved (init h0 start s rest) [] := by
-  unfold init
-  exact grows_conserved (settle_grows _) (by simp [handed]) rfl
-
-theorem exec_conserved (h0 start : Nat) (s : Spec) (rest : List Spec) (evs : List Ev) :
-    Conserved (exec h0 start s rest evs) (delivered evs) := by
-  unfold exec
-  have h := init_conserved h0 start s rest
-  generalize init h0 start s rest = c at h
-  have key : ∀ (evs : List Ev) (c : Cfg) (d : List Nat), Conserved c d →
-      Conserved (evs.foldl step c) (d ++ delivered evs) := by
-    intro evs
-    induction evs with
-    | nil => intro c d h; simpa [delivered] using h
-    | cons e r ih =>
-      intro c d h
-      have := ih _ _ (step_conserved c e d h)
-      rw [show e :: r = [e] ++ r from rfl, delivered_append, ← List.append_assoc]
-      exact this
-  simpa using key evs c [] h
-
-theorem drain_conserved (n : Nat) (c : Cfg) (d : List Nat) (h : Conserved c d) :
-    Conserved (drain n c) d := by
-  induction n generalizing c with
-  | zero => exact h
-  | succ n ih =>
-    apply ih
-    unfold drainStep
-    split
-    · exact h
-    · simpa [delivered] using step_conserved c .release d h
-    · rename_i x _; simpa [delivered] using step_conserved c (.block x) d h
-    · rename_i x _; simpa [delivered] using step_conserved c (.block x) d h
-    · rename_i x _; simpa [delivered] using step_conserved c (.block x) d h
-
-/-- **messages_conserved**: for every event list, chain and timing, the sequence of messages
-    delivered to the channel equals, in order: the messages handed to the states (in state
-    order), then the messages still in `recvChan`, then the messages that arrived after the
-    machine had returned. None is lost, duplicated, reordered or invented. -/
-theorem messages_conserved (h0 start : Nat) (s : Spec) (rest : List Spec) (evs : List Ev) :
-    delivered evs = handed (run h0 start s rest evs) ++ (run h0 start s rest evs).buf
-      ++ (run h0 start s rest evs).dropped :=
-  (drain_conserved _ _ _ (exec_conserved h0 start s rest evs)).1
-
-/-- monitor tie, message part: `holdsMsgs` accepts every run of the model. -/
-theorem holdsMsgs_model (h0 start : Nat) (s : Spec) (rest : List Spec) (evs : List Ev) :
-    holdsMsgs (delivered evs) (handed (run h0 start s rest evs))
-      (run h0 start s rest evs).buf.length (run h0 start s rest evs).dropped = true := by
-  have h := messages_conserved h0 start s rest evs
-  generalize handed (run h0 start s rest evs) = a at h
-  generalize (run h0 start s rest evs).buf = b at h
-  generalize (run h0 start s rest evs).dropped = c at h
-  unfold holdsMsgs
-  rw [h]
-  simp [List.drop_append, List.take_append]
-  omega
-
-
-/-- **chained_machines_follow_one_schedule** (`ExecuteDKG`): when the publication machine is started
-    at the block the GJKR machine returned, both machines ending normally, the block-counter calls
-    of a member are the nominal ones of the concatenated chain anchored at the common DKG start
-    block — whatever blocks, messages and `Initiate` durations either machine saw — and the
-    publication machine ends at `start + ProtocolBlocks() + PrePublicationBlocks()`. -/
-theorem chained_machines_follow_one_schedule (start h0 h0' : Nat) (evs evs' : List Ev)
-    (g : Spec) (grest : List Spec) (hg : gjkrChain = g :: grest)
-    (r : Spec) (rrest : List Spec) (hr : resultChain = r :: rrest)
-    (k e k' e' : Nat)
-    (h1 : (run h0 start g grest evs).res = .final k e)
-    (h2 : (run h0' e r rrest evs').res = .final k' e') :
-    e = start + Gen.C14.gjkrProtocolBlocks ∧
-    e' = start + Gen.C14.gjkrProtocolBlocks + Gen.C14.resultPrePublicationBlocks ∧
-    (run h0 start g grest evs).calls ++ (run h0' e r rrest evs').calls =
-      .wait start :: sched start gjkrChain ++ .wait e :: sched e resultChain := by
-  obtain ⟨a1, _, c1⟩ := end_block_eq h0 start g grest evs k e h1
-  obtain ⟨a2, _, c2⟩ := end_block_eq h0' e r rrest evs' k' e' h2
-  rw [← hg, gjkr_total_eq_ProtocolBlocks] at a1
-  rw [← hr, result_total_eq_PrePublicationBlocks] at a2
-  refine ⟨a1, by omega, ?_⟩
-  rw [c1, c2, hg, hr]
-
-/-- the nominal `ExecuteDKG` calls the driver prints are those of the theorem above at start 0 -/
-theorem dkgNominal_eq :
-    dkgNominal = .wait 0 :: sched 0 gjkrChain ++
-      .wait Gen.C14.gjkrProtocolBlocks :: (sched Gen.C14.gjkrProtocolBlocks resultChain).dropLast := by
-  have : endOf 0 gjkrChain = Gen.C14.gjkrProtocolBlocks := by
-    rw [endOf_eq, gjkr_total_eq_ProtocolBlocks]; simp
-  simp [dkgNominal, this]
-
-/-- non-vacuity: a run with a late block jump and a silent state ends normally at `start + total`
-    (by `simp` unfolding; no kernel evaluation of the run). -/
-example : (run 0 2 { delay := 1, active := 2 } [{ delay := 0, active := 0 }] [.block 9]).res
-    = .final 1 5 := by
-  simp [run, exec, init, settle, delayStage, initStage, afterInit, loopStage, chain, drain,
-    drainStep, step]
-
 end KeepVerif.C14
